@@ -715,6 +715,13 @@ def check_history(group, hist, res):
             )
     if m.vars:
         res.distinct.add((group, tuple(hist)))
+        if len(hist) >= 2:
+            obs = allobs[(True, False)]
+            res.sample(
+                {"group": group, "history": list(hist), "reads_compared": sum(len(o) for o in allobs.values()),
+                 "some_reads": {"%s %s" % k: str(v)[:40] for k, v in list(obs.items())[:6]}},
+                limit=3,
+            )
     res.part("group:" + group, histories=1, **{"len%d" % len(hist): 1})
 
 
